@@ -4,6 +4,7 @@ pub mod c01;
 pub mod c02;
 pub mod c03;
 pub mod c06;
+pub mod c08;
 pub mod c17;
 pub mod c20;
 pub mod c21;
@@ -64,6 +65,16 @@ pub fn registry() -> &'static [CheckDef] {
             cpu_budget_ms: 60_000,
             run: c03::run_c07,
             assumptions: &["rows are inserted through Database::insert_row so that -0.0 and exact doubles reach the table"],
+        },
+        CheckDef {
+            id: "C08",
+            level: "exploration",
+            rule: "Table t(id, a, b, c VARCHAR, d DOUBLE) with 0..14 rows, ties and NULLs (density 0/20/50 %), optional index on a / c / (a, b) / a DESC. ORDER BY lists of 1-3 keys written as column, expression, select-list alias or position, ASC/DESC; LIMIT from {0, 1, 2, n-1, n, n+1, 1000}, OFFSET from {0, 1, 2, n-1, n, n+3}. The statement is issued with the key expressions appended as extra output columns and also without ORDER BY/LIMIT; the harness sorts the unordered rows itself (stable, NULLs last in both directions) and checks: row count == slice [m, m+n), output sorted by the keys, key sequence == key sequence of the slice, every row present in the unordered result, permutation when no LIMIT/OFFSET, and the statement as written (no appended keys) returns the same rows. DISTINCT statements are checked for each distinct row exactly once and for DISTINCT-before-LIMIT. distinct = (key forms, DESC, key count, limit class, offset class, index, order produced by index or by sort).",
+            floor: 80,
+            shards: 16,
+            cpu_budget_ms: 60_000,
+            run: c08::run,
+            assumptions: &["documented rule NULLs last for ASC and DESC", "rows inside a tie group may come back in any order"],
         },
         CheckDef {
             id: "C17",
